@@ -3,6 +3,7 @@ package props
 import (
 	"fmt"
 	"go/ast"
+	"go/constant"
 	"go/token"
 	"go/types"
 	"sort"
@@ -327,11 +328,20 @@ func c14Max(p *core.Program, r *core.Report) {
 				var out []paths.Event
 				switch v := n.(type) {
 				case *ast.AssignStmt:
+					if len(v.Lhs) == len(v.Rhs) {
+						for i, l := range v.Lhs {
+							if id, ok := l.(*ast.Ident); ok {
+								if tv, ok := info.Types[v.Rhs[i]]; ok && tv.Value != nil && tv.Value.Kind() == constant.Bool {
+									out = append(out, paths.Event{Kind: "FLAG", Arg: fmt.Sprintf("%s=%v", id.Name, constant.BoolVal(tv.Value))})
+								}
+							}
+						}
+					}
 					if ix, ok := v.Lhs[0].(*ast.IndexExpr); ok && strings.HasPrefix(stripSpaces(types.ExprString(ix.X)), rn+".M") {
 						// the register is replaced: word = (word with the register's bits cleared) | new value
 						clears := false
 						if v.Tok == token.ASSIGN && len(v.Rhs) == 1 {
-							ast.Inspect(v.Rhs[0], func(k ast.Node) bool {
+							ast.Inspect(storedWord(info, fi.Decl.Body, ix, v.Rhs[0]), func(k ast.Node) bool {
 								switch b := k.(type) {
 								case *ast.BinaryExpr:
 									if b.Op == token.AND_NOT {
@@ -363,6 +373,20 @@ func c14Max(p *core.Program, r *core.Report) {
 			}})
 		var probs []string
 		for _, pa := range ps {
+			if !pa.Consistent() {
+				continue
+			}
+			// a returned boolean local stands for the constant it was last given on this path
+			for i, e := range pa {
+				if e.Kind == "RETVAL" {
+					for k := i - 1; k >= 0; k-- {
+						if pa[k].Kind == "FLAG" && strings.HasPrefix(pa[k].Arg, e.Arg+"=") {
+							pa[i].Arg = strings.TrimPrefix(pa[k].Arg, e.Arg+"=")
+							break
+						}
+					}
+				}
+			}
 			less := curName != "" && newName != "" && pa.HasArg("COND", cc(curName, "<", newName, true))
 			if pa.HasArg("STORE", "merge") {
 				probs = append(probs, "the new value is or-ed into the word without clearing the register's old bits: the register becomes old|new, not the larger value")
@@ -1781,4 +1805,62 @@ func c14RegisterOnly(p *core.Program, r *core.Report) {
 		}
 		r.Check(bad == "", "C14.max", core.FuncName(u.fi.Obj)+" decides by the register alone", p.Pos(u.fi.Decl.Pos()), "reads no mutable state of the set beside the register words", bad)
 	}
+}
+
+// storedWord: what `target = rhs` stores. When rhs (conversions stripped) is a local with several
+// definitions of which all but one only hand back the word read from target itself (storing that is
+// storing nothing new), the remaining definition is what the store can change the word to.
+func storedWord(info *types.Info, body *ast.BlockStmt, target ast.Expr, rhs ast.Expr) ast.Expr {
+	strip := func(e ast.Expr) ast.Expr {
+		for {
+			switch x := e.(type) {
+			case *ast.ParenExpr:
+				e = x.X
+				continue
+			case *ast.CallExpr:
+				if tv, ok := info.Types[x.Fun]; ok && tv.IsType() && len(x.Args) == 1 {
+					e = x.Args[0]
+					continue
+				}
+			}
+			return e
+		}
+	}
+	id, ok := strip(rhs).(*ast.Ident)
+	if !ok {
+		return rhs
+	}
+	obj := info.ObjectOf(id)
+	if _, isVar := obj.(*types.Var); !isVar {
+		return rhs
+	}
+	want := stripSpaces(types.ExprString(target))
+	var defs []ast.Expr
+	bad := false
+	ast.Inspect(body, func(n ast.Node) bool {
+		switch x := n.(type) {
+		case *ast.AssignStmt:
+			for i, l := range x.Lhs {
+				if lid, isId := l.(*ast.Ident); isId && info.ObjectOf(lid) == obj {
+					if len(x.Lhs) != len(x.Rhs) || (x.Tok != token.ASSIGN && x.Tok != token.DEFINE) {
+						bad = true
+						continue
+					}
+					if stripSpaces(types.ExprString(strip(x.Rhs[i]))) == want {
+						continue
+					}
+					defs = append(defs, x.Rhs[i])
+				}
+			}
+		case *ast.IncDecStmt:
+			if lid, isId := x.X.(*ast.Ident); isId && info.ObjectOf(lid) == obj {
+				bad = true
+			}
+		}
+		return true
+	})
+	if bad || len(defs) != 1 {
+		return rhs
+	}
+	return defs[0]
 }
